@@ -908,6 +908,37 @@ func lemma_c06m_%[1]s_%[2]s(m *%[1]s) {
 				fmt.Fprintf(&c, "\n//@ func lemma_c06m_%s_%s(m *%s)\n//@   harness\n//@   inlines Unmarshal\n//@   cuts\n//@   outer 1\n//@   bounded %d the input is exactly one empty entry of map field %s\n", t.Name, f, t.Name, unmarshalFields, f)
 			}
 		}
+		// C09: what Unmarshal leaves in the size cache.  After decoding a valid but non-canonical
+		// input (a singular scalar twice) Size() must be the size of the contents, i.e. what it is
+		// with the cache cleared.
+		if t.Cache != "" {
+			var names []string
+			for _, f := range t.Fields {
+				if sn, ok := t.SingNum[f]; ok && (sn[0] == "varint" || sn[0] == "zigzag32" || sn[0] == "zigzag64") {
+					names = append(names, f)
+				}
+			}
+			if len(names) > 0 {
+				f := names[0]
+				key := keyLit(t.SingNum[f][1], 0)
+				fmt.Fprintf(&h, `
+func lemma_c09u_%[1]s(m *%[1]s, a0, b0 byte) {
+	gocv_assume(m != nil)
+	gocv_assume(a0 < 0x80 && b0 < 0x80) // one-byte varints
+	p := []byte{%[2]s, a0, %[2]s, b0} // field %[3]s twice: valid, not canonical
+	err := m.Unmarshal(p)
+	if err != nil {
+		return
+	}
+	s1 := m.Size()
+	m.%[4]s = 0
+	s2 := m.Size()
+	gocv_assert(s1 == s2, "size-after-unmarshal-is-the-size-of-the-contents")
+}
+`, t.Name, key, f, t.Cache)
+				fmt.Fprintf(&c, "\n//@ func lemma_c09u_%s(m *%s, a0, b0 byte)\n//@   harness\n//@   inlines Unmarshal, Size\n//@   abstracts vlen\n//@   cuts\n//@   outer 2\n//@   bounded %d the input is exactly two occurrences of singular field %s (one-byte varints); Size() right after Unmarshal against Size() with the cache cleared\n", t.Name, t.Name, unmarshalFields, f)
+			}
+		}
 		// C17, decode direction
 		if len(t.Required) > 0 {
 			var as strings.Builder
